@@ -34,6 +34,8 @@ def run(ck):
     ck.rule("C12.R10", "what a reload replaces holds no per-span state of its own: a value swapped in judges spans that were opened before the reload", floor=5)
     ck.rule("C12.R11", "an EnvFilter edited in place is re-read by the rebuild: register_callsite refreshes the per-callsite span matcher on every registration (as C08.R11)", floor=1)
     ck.rule("C12.R12", "a callsite first hit while a reload is in progress ends up judged by the new value: only the thread that won the registration CAS registers, others answer `sometimes` (as C04.R4), and the cached interest is written only through set_interest (as C01.R7)", floor=5)
+    ck.rule("C12.R14", "what the reloaded filter answers the rebuild is not lost when per-subscriber filters' interests are combined: differing answers accumulate to "
+            "`sometimes`, whichever came first (as C08.R3)", floor=1)
     ck.rule("C12.R13", "the questions the rebuild asks reach the reloadable layer: every wrapper on the way (Layered, Box, Arc, Option, Vec, Filtered) forwards register_callsite / enabled / max_level_hint (as C09.R1/R2)", floor=20)
     ck.rule("C12.R8", "a filter edited in place by modify keeps its cached max level an upper bound (DirectiveSet::add, as C08.R4): the rebuild publishes that hint", floor=1)
     ck.rule("C12.R7", "what a reload swaps in is what the stack consults: Layered re-derives a None layer's hint from the live value (as C08.R7)", floor=1)
@@ -69,6 +71,8 @@ def run(ck):
             C08.directive_add_rule(ck, Facts("release"), rid="C12.R8")
             r10(ck, F)
             C08.envfilter_matcher_refresh(ck, F, rid="C12.R11")
+            # the new value's answer to the rebuild must survive being combined with its neighbours' answers
+            C08.r3(ck, F, rid="C12.R14")
     ck.tag = ""
 
 
